@@ -106,3 +106,19 @@ Example c01_example_extended :
   | Fail _ _ => False
   end.
 Proof. vm_compute. repeat split. Qed.
+
+(* the bulk route: when Factory.GetComponents() succeeds after a successful start, what it returns for every name is
+   the version published for that name — the one every holder holds and every lookup by name returns *)
+Theorem c01_bulk_lookup_agrees : forall s x o st ns o' st' vs,
+  run_xt repaired s x = (o, Ok st) ->
+  bulk_core_xt repaired (normalise repaired s) x ns st = (o', (st', Ok vs)) ->
+  Forall2 (fun n v => alookup n (L1 (reg st')) = Some v) ns vs
+  /\ forall h k v, k < 100 -> In v (field_of st h k) -> alookup (owner v) (L1 (reg st')) = Some v.
+Proof.
+  intros s x o st ns o' st' vs H Hb.
+  pose proof (run_core_xt_top repaired (normalise repaired s) x o st eq_refl H) as Ht.
+  destruct (bulk_core_xt_published repaired (normalise repaired s) x eq_refl ns st o' st' vs Ht Hb) as [Ht' [Hk Hall]].
+  split; [exact Hall|]. intros h k v Hk100 Hv.
+  apply (top_cur_L1 st' _ v Ht'). apply Hk. unfold cur.
+  rewrite (c01_shared_instance_extended s x o st H h k v Hk100 Hv). reflexivity.
+Qed.
